@@ -32,8 +32,11 @@ Reach(S, k) == IF k = 0 THEN S ELSE Reach(S \cup UNION {DepsOf(c) : c \in S}, k 
 NC == Cardinality(Cmds)
 OnCycle(c) == c \in Reach(DepsOf(c), NC)
 HasCycle == \E c \in Cmds : OnCycle(c)
-ReachesCycle(c) == \E d \in Reach({c}, NC) : OnCycle(d)
-NeedsFailing(c) == \E d \in Reach({c}, NC) : d \in Fails
+\* what reading c's result has to evaluate: the references that are actually read (a consumer may be known not to read one of its references)
+RECURSIVE ReadReach(_, _)
+ReadReach(S, k) == IF k = 0 THEN S ELSE ReadReach(S \cup UNION {DepsOf(c) \ IgnoredOf(c) : c \in S}, k - 1)
+ReachesCycle(c) == \E d \in ReadReach({c}, NC) : d \in ReadReach(DepsOf(d) \ IgnoredOf(d), NC)
+NeedsFailing(c) == \E d \in ReadReach({c}, NC) : d \in Fails
 
 Init == /\ tid \in 1..Len(Traces) /\ l = 1 /\ verdict = "ok" /\ stack = <<>>
         /\ st = [c \in DOMAIN Traces[tid].deps |-> "new"]
@@ -86,9 +89,10 @@ RetRun(e) ==
     ELSE IF e.ok /\ \E c \in Cmds \ absent : st[c] # "finished" THEN Fail("C01.RunIncomplete")
     ELSE IF ~e.ok /\ e.cause = "RecursionError" THEN Fail("C14.StackOverflow")
     ELSE IF ~e.ok /\ e.cls = "RecursiveModelStructure" /\ ~HasCycle THEN Fail("C01.SpuriousRecursive")
-    ELSE IF ~e.ok /\ HasCycle /\ Fails = {} /\ e.cls # "RecursiveModelStructure" THEN Fail("C14.WrongError")
-    ELSE IF ~e.ok /\ ~HasCycle /\ Fails = {} THEN Fail("C01.SpuriousFailure")
-    ELSE IF e.ok /\ Fails # {} THEN Fail("C01.FailureSwallowed")
+    \* (a failing command that has not been added to the program yet cannot fail - or excuse - this run)
+    ELSE IF ~e.ok /\ HasCycle /\ (Fails \ absent) = {} /\ e.cls # "RecursiveModelStructure" THEN Fail("C14.WrongError")
+    ELSE IF ~e.ok /\ ~HasCycle /\ (Fails \ absent) = {} THEN Fail("C01.SpuriousFailure")
+    ELSE IF e.ok /\ (Fails \ absent) # {} THEN Fail("C01.FailureSwallowed")
     ELSE Pass
 
 RetResult(e) ==
